@@ -256,8 +256,8 @@ package bus
 //@ ghostfield sent int
 //@ interface (c Channel) Send(msg *net.Message) (err error)
 //@   trusted
-//@   modifies c.sent
-//@   ensures c.sent == old(c.sent) + 1
+//@   modifies c.sent, c.lasttype, c.lastid, c.lastaction, c.lastservice, c.lastobject
+//@   ensures c.sent == old(c.sent) + 1 && c.lasttype == msg.Header.Type && c.lastid == msg.Header.ID && c.lastaction == msg.Header.Action && c.lastservice == msg.Header.Service && c.lastobject == msg.Header.Object
 //@ interface (e net.EndPoint) RemoveHandler(id int) (err error)
 //@   trusted
 //@   modifies everything
@@ -265,15 +265,16 @@ package bus
 //@   trusted
 //@   pure
 //@ func (o *signalHandler) newHeader(typ uint8, action uint32, id uint32) (result net.Header)
-//@   trusted
+//@   tags C13
 //@   pure
+//@   ensures result.Type == typ && result.Service == o.serviceID && result.Object == o.objectID && result.Action == action && result.ID == id
 
 // sendTerminate: exactly one message is sent to the subscriber's connection.
 //@ func (o *signalHandler) sendTerminate(user *signalUser, signal uint32) (err error)
 //@   tags C16
 //@   requires user != nil && user.context != nil
-//@   modifies user.context.sent
-//@   ensures[C16] user.context.sent == old(user.context.sent) + 1
+//@   modifies user.context.sent, user.context.lasttype, user.context.lastid, user.context.lastaction, user.context.lastservice, user.context.lastobject
+//@   ensures[C16] user.context.sent == old(user.context.sent) + 1 && user.context.lasttype == 3 && user.context.lastid == user.messageID && user.context.lastaction == user.signalID
 
 // OnTerminate: the table is detached and emptied inside the critical section; the detached copy is
 // private to this call (every element read after the release carries the obligation that the
@@ -365,3 +366,75 @@ package bus
 //@   modifies everything
 //@   call Send#1: assert[C04,C11] c.endpoint.nhandlers == old(c.endpoint.nhandlers) + 1
 //@   ensures[C04] !c.messageIDMutex.lockw
+
+// ---- signals (C13)
+// Client-side reference count of local subscribers per signal (proxy.SubscribeID registers
+// remotely on 0 -> 1 and unregisters on 1 -> 0).
+//@ guarded_by (c *client) c.stateMutex: c.state, c.state[*]
+//@   monitor c.state != nil
+//@ spec stateOf(m map[string]int, k string) int := has(m, k) ? m[k] : 0
+//@ func (c *client) State(signal string, add int) (result int)
+//@   tags C13
+//@   requires !c.stateMutex.lockw
+//@   modifies everything
+//@   ensures[C13] !c.stateMutex.lockw
+//@   ensures[C13] result == int(at_lock(stateOf(c.state, signal)) + add)
+//@   ensures[C13] at_unlock(stateOf(c.state, signal)) == result
+//@   ensures[C13] result == 0 ==> !at_unlock(has(c.state, signal))
+//@   ensures[C13] forall k string {at_unlock(has(c.state, k))} :: k != signal ==> (at_unlock(has(c.state, k)) <==> at_lock(has(c.state, k))) && at_unlock(c.state[k]) == at_lock(c.state[k])
+
+// Server-side subscriber table: removal takes out exactly the entry of (user id, connection).
+//@ func (o *signalHandler) removeSignalUser(userID uint64, from Channel) (err error)
+//@   tags C13 C12
+//@   requires !o.signalsMutex.lockw && o.signalsMutex.lockr == 0 && from != nil
+//@   modifies everything
+//@   ensures[C13,C12] !o.signalsMutex.lockw && o.signalsMutex.lockr == 0
+//@   ensures[C13] err == nil ==> at_unlock(len(o.signals)) == at_lock(len(o.signals)) - 1
+//@   ensures[C13] err != nil ==> at_unlock(len(o.signals)) == at_lock(len(o.signals)) && forall k int {at_unlock(o.signals[k])} :: 0 <= k && k < at_lock(len(o.signals)) ==> at_unlock(o.signals[k]).userID == at_lock(o.signals[k]).userID
+//@   loop 1:
+//@     invariant o.signalsMutex.lockw && o.signals == at_lock(o.signals)
+//@     invariant forall k int {o.signals[k]} :: 0 <= k && k < len(o.signals) ==> o.signals[k].context != nil && o.signals[k].userID == at_lock(o.signals[k]).userID
+
+// One event per matching subscriber: Event message carrying the subscriber's own message id, this
+// object's address and the signal id.
+//@ func (o *signalHandler) replyEvent(user *signalUser, signal uint32, value []byte) (err error)
+//@   tags C13
+//@   requires user != nil && user.context != nil
+//@   modifies user.context.sent, user.context.lasttype, user.context.lastid, user.context.lastaction, user.context.lastservice, user.context.lastobject
+//@   ensures[C13] user.context.sent == old(user.context.sent) + 1 && user.context.lasttype == 5 && user.context.lastid == user.messageID && user.context.lastaction == signal && user.context.lastservice == o.serviceID && user.context.lastobject == o.objectID
+
+// UpdateSignal: the matching entries are collected under the read lock into a private slice, then
+// each of them (and nobody else) is sent one event, in table order.
+//@ func (o *signalHandler) UpdateSignal(signalID uint32, data []byte) (ret error)
+//@   tags C13
+//@   requires !o.signalsMutex.lockw && o.signalsMutex.lockr == 0
+//@   modifies everything
+//@   ensures[C13] !o.signalsMutex.lockw && o.signalsMutex.lockr == 0
+//@   private signals[*]
+//@   call RLock#1: assume_after ref(signals) != ref(o.signals)
+//@   call replyEvent#1: assert[C13] user.signalID == signalID && user.context != nil
+//@   loop 1:
+//@     invariant !o.signalsMutex.lockw && o.signalsMutex.lockr == 1 && o.signals == at_lock(o.signals)
+//@     invariant fresh(signals) && ref(signals) != ref(o.signals)
+//@     invariant forall k int {o.signals[k]} :: 0 <= k && k < len(o.signals) ==> o.signals[k].context != nil
+//@     invariant forall k int {signals[k]} :: 0 <= k && k < len(signals) ==> signals[k].signalID == signalID && signals[k].context != nil
+//@   loop 2:
+//@     invariant !o.signalsMutex.lockw && o.signalsMutex.lockr == 0
+//@     invariant forall k int {signals[k]} :: 0 <= k && k < len(signals) ==> signals[k].signalID == signalID && signals[k].context != nil
+
+// addSignalUser: a new entry is appended only when no entry with this user id exists; on a
+// duplicate id nothing of the table changes and the only handler removed is the one just created
+// for the new (rejected) registration.
+//@ func (o *signalHandler) addSignalUser(userID uint64, signalID uint32, messageID uint32, from Channel) (err error)
+//@   tags C13 C12
+//@   requires !o.signalsMutex.lockw && o.signalsMutex.lockr == 0 && from != nil
+//@   modifies everything
+//@   ensures[C13,C12] !o.signalsMutex.lockw && o.signalsMutex.lockr == 0
+//@   ensures[C13] err == nil ==> at_unlock(len(o.signals)) == at_lock(len(o.signals)) + 1 && at_unlock(o.signals[at_lock(len(o.signals))]).userID == userID && at_unlock(o.signals[at_lock(len(o.signals))]).signalID == signalID && at_unlock(o.signals[at_lock(len(o.signals))]).messageID == messageID
+//@   ensures[C13] err == nil ==> forall k int {at_lock(o.signals[k])} :: 0 <= k && k < at_lock(len(o.signals)) ==> at_lock(o.signals[k]).userID != userID
+//@   ensures[C13] err != nil ==> at_unlock(len(o.signals)) == at_lock(len(o.signals))
+//@   call RemoveHandler#1: assert[C13,C12] arg0 == newUser.contextID && recv == e
+//@   loop 1:
+//@     invariant o.signalsMutex.lockw && o.signals == at_lock(o.signals) && e != nil
+//@     invariant forall k int {o.signals[k]} :: 0 <= k && k < len(o.signals) ==> o.signals[k].context != nil
+//@     invariant forall k int {o.signals[k]} :: 0 <= k && k <= rangeindex && k < len(o.signals) ==> o.signals[k].userID != userID
